@@ -87,6 +87,8 @@ def make_points(all_names, rng, n_extra=2):
     pts = []
     for pool in pools:
         pts.append({nm: pool[i % len(pool)] for i, nm in enumerate(names)})
+    pts.append({nm: Fr(0) for nm in names})                                   # the origin
+    pts.append({nm: (Fr(0) if i % 2 else Fr(-3, 2)) for i, nm in enumerate(names)})  # zeros mixed with regular coordinates
     for k in range(n_extra):
         pool = pools[k % 3][:]
         rng.shuffle(pool)
@@ -106,6 +108,8 @@ def oracle(t, pt, pars, deriv=False):
             exact = interp.eval_exact(t, pt, pars)
         except TypeError:
             exact = None          # fractional power: not rational after all
+    if exact is not None and interp.has_tiny(t):
+        exact = None              # tolerance must come from the running error bound
     if exact is not None:
         v = exact
         fv = float(v)
@@ -141,7 +145,7 @@ class Ctx:
         self.mode = mode
         self.looser = 0.0
         self.report_kinds = None      # None: report generic Api divergences for every kind (C11); else only these kinds
-        self.pars = {}
+        self.pars = {99: Fr(1, 10 ** 12)}      # Api.TinyAtom: the scale of "tiny" literals
         for c in base_calls:
             if c['c'] == 'MkPar':
                 self.pars[c['i']] = apiexec.q(c['lit']['qs'][0])
